@@ -296,9 +296,13 @@ Section Main.
         * destruct (seteq_ls_l _ _ Hl x Hx) as [y [[<-|[]] He]].
           rewrite absent_labels_sel_of in He. destruct (sel_of a) as [ms|] eqn:Eso.
           -- destruct (sel_of_walk a ms Eso) as [s0 [Hs0 Hsel]].
+             apply andb_true_iff in Hwc. destruct Hwc as [Hwc Hnn].
+             assert (Hnd : nodup_names ms = true).
+             { destruct a; try discriminate; [inversion Eso; subst; exact Hnn|].
+               destruct a; try discriminate. inversion Eso; subst. exact Hnn. }
              exists (call_src f [a] (arg0_of fmod fpow [a]) s0). split.
              ++ apply (walk_call_intro fmod fpow f ats [a] 0 a s0); auto.
-             ++ intros l Hl'. apply (call_src_absent f [a] _ s0 ms l Hk Hsel).
+             ++ intros l Hl'. apply (call_src_absent f a _ s0 ms l Hk Eso Hnd).
                 ** eapply walk_nd; eauto.
                 ** apply has_get. rewrite <- He. apply has_get. exact Hl'.
           -- destruct (walk_call_exists fmod fpow f ats [a]) as [s Hs]. exists s. split; auto.
